@@ -6,7 +6,7 @@ use crate::engine::{catch, Ctx, Obs, PropertyDef, Section};
 use crate::gen::diag::{
     diag_spec, BndSpec, DiagParams, DiagSpec, Palette, ScalarSpec, SpiderSpec, WireSpec,
 };
-use crate::gen::plant::{any_rule_plant, planted_spec, PlantedSpec};
+use crate::gen::plant::{any_rule_plant, planted_spec, star_spec, PlantedSpec, StarSpec};
 use crate::oracle::diag::{build, snapshot, Diag, IdPlan};
 use quizx::graph::{GraphLike, V};
 
@@ -143,6 +143,75 @@ fn check_diag(spec: &DiagSpec, obs: &mut Obs) -> Result<(), String> {
 
 fn check_planted(spec: &PlantedSpec, obs: &mut Obs) -> Result<(), String> {
     check_model(&spec.to_diag(), &spec.host.plan, obs)
+}
+
+/// high-degree hosts: rules are tried on the pairs that involve a hub (vertices 0 and 1) and on
+/// every single vertex
+fn check_star(spec: &StarSpec, obs: &mut Obs) -> Result<(), String> {
+    let d = spec.to_diag();
+    let before = match truth_of(&d) {
+        Ok(t) => t,
+        Err(crate::oracle::zxeval::EvalErr::TooBig) => {
+            obs.skip("oracle-too-big");
+            return Ok(());
+        }
+        Err(e) => panic!("generator produced a diagram the oracle rejects: {e:?}"),
+    };
+    let deg0 = d.degree(0) as i64;
+    let deg1 = d.degree(1) as i64;
+    obs.class_if((deg0 - 2) * (deg1 - 2) >= 126, "sqrt2-exponent>=126");
+    fn go<G: GraphLike + PartialEq>(d: &Diag, before: &Truth, backend: &str, obs: &mut Obs) -> Result<(), String> {
+        let (g, ids) = build::<G>(d, &IdPlan::default());
+        let hubs = [ids[0], ids[1]];
+        let all = arg_ids(&g);
+        let mut pairs: Vec<(V, V)> = vec![];
+        for &h in &hubs {
+            for &v in &all {
+                pairs.push((h, v));
+                pairs.push((v, h));
+            }
+        }
+        pairs.sort();
+        pairs.dedup();
+        for &rule in ALL_RULES.iter() {
+            let args: Vec<(V, V)> = if rule.arity() == 1 {
+                all.iter().map(|&v| (v, v)).collect()
+            } else {
+                pairs.clone()
+            };
+            for (v0, v1) in args {
+                let what = || format!("{backend}: {}({v0},{v1})", rule.name());
+                let accepted = catch(|| rule.check(&g, v0, v1))
+                    .map_err(|p| format!("{}: check panicked: {p}", what()))?;
+                if !accepted {
+                    continue;
+                }
+                obs.class(rule.accept_class());
+                obs.nontrivial_key((rule as u64) << 32 | (v0 as u64) << 16 | v1 as u64);
+                let mut h = g.clone();
+                catch(|| rule.unchecked(&mut h, v0, v1))
+                    .map_err(|p| format!("{}: matcher accepted but the rule panicked: {p}", what()))?;
+                let after = match graph_truth(&h) {
+                    GraphTruth::Ok(t) => t,
+                    GraphTruth::TooBig => {
+                        obs.skip("oracle-too-big");
+                        continue;
+                    }
+                    GraphTruth::Malformed(m) => {
+                        return Err(format!("{}: matcher accepted but the result is not a well-formed diagram: {m}", what()))
+                    }
+                };
+                same_truth(before, &after, REL_TOL)
+                    .map_err(|e| format!("{}: matcher accepted but the rule changed the linear map: {e}", what()))?;
+            }
+        }
+        Ok(())
+    }
+    go::<quizx::vec_graph::Graph>(&d, &before, "vec", obs)?;
+    go::<quizx::hash_graph::Graph>(&d, &before, "hash", obs)?;
+    obs.classes.sort();
+    obs.classes.dedup();
+    Ok(())
 }
 
 fn check_model(d: &Diag, plan: &IdPlan, obs: &mut Obs) -> Result<(), String> {
@@ -316,6 +385,12 @@ pub fn def(ctx: &Ctx) -> PropertyDef {
                 planted_spec(p, any_rule_plant(Palette::Exact), 2)
             },
             check_planted,
+        ),
+        Section::random(
+            "high-degree",
+            ctx.cases(25, 500),
+            move || star_spec(t.pick(16, 18)),
+            check_star,
         ),
     ];
     PropertyDef {
